@@ -1,6 +1,8 @@
 #!/usr/bin/env python3
 """dev helper: confirm a sub-agent's seeded change in the scratch worktree /tmp/wt/self and archive it.
-usage: confirm_mutant.py <agent-dir> <seed-id> <property> "<needs>" [checks to run ...]"""
+usage: confirm_mutant.py <agent-dir> <seed-id> <property> "<needs>" [checks to run ...]
+The scratch worktree is not kept: create it first with `git -C /repo worktree add --detach /tmp/wt/self HEAD`
+and remove it (git worktree remove --force) when the round is over."""
 import json, os, shutil, subprocess, sys, glob
 src, sid, prop, needs = sys.argv[1:5]
 checks = sys.argv[5:] or [prop]
